@@ -62,25 +62,33 @@ def machine(prop):
 
 def run_index(prop, seed, index, keep_case=False, keep_log=False):
     """One simulated run: a pure function of (code, prop, seed, index).
-    Executed in a pristine process (fork of the run zygote)."""
-    return common.run_isolated(
-        "sim.driver", "run_index_local", prop, seed, index, keep_case, keep_log
-    )
+    The case is generated in one pristine process and executed in another, so
+    executing it here, in the parent while minimising, or from a replay file
+    in a new interpreter are the very same computation."""
+    case = common.run_isolated("sim.driver", "gen_case_local", prop, seed, index)
+    return run_case(prop, case, keep_case=keep_case, keep_log=keep_log)
 
 
-def run_index_local(prop, seed, index, keep_case=False, keep_log=False):
+def gen_case_local(prop, seed, index):
     mach = machine(prop)
     rng = rng_for(seed, prop, index)
     case = mach.gen_case(rng)
     case["seed"] = seed
     case["run"] = index
-    return run_case_local(prop, case, keep_case=keep_case, keep_log=keep_log)
+    return json.dumps(case)
 
 
 def run_case(prop, case, keep_case=False, keep_log=False):
+    # always as JSON text: the execution must not depend on object sharing or
+    # other accidents of how the case was produced in this process
+    text = case if isinstance(case, str) else json.dumps(case)
     return common.run_isolated(
-        "sim.driver", "run_case_local", prop, case, keep_case, keep_log
+        "sim.driver", "run_case_json", prop, text, keep_case, keep_log
     )
+
+
+def run_case_json(prop, text, keep_case=False, keep_log=False):
+    return run_case_local(prop, json.loads(text), keep_case, keep_log)
 
 
 def run_case_local(prop, case, keep_case=False, keep_log=False):
@@ -242,6 +250,8 @@ def determinism_sample(prop, seed, indices, digests):
     env.pop("STATHAM_VERIF_CHILD", None)
     env["STATHAM_VERIF_HASHSEED"] = "31337"
     env["STATHAM_VERIF_PAD"] = "y" * 1234
+    env["STATHAM_VERIF_ZYG_HASHSEED"] = "31337"
+    env["STATHAM_VERIF_ZYG_PAD"] = "y" * 1234
     env["VERIF_SEED"] = str(seed)
     proc = subprocess.run(
         [
@@ -362,19 +372,6 @@ def check_part(prop, mkey, tier):
             failing.append((index, res))
         elif "case" in res and len(samples) < 3:
             samples.append(mach.sample_of(res["case"]) if hasattr(mach, "sample_of") else res["case"])
-    # ---- determinism sample --------------------------------------------
-    det = {"checked": 0, "mismatched": []}
-    if os.environ.get("VERIF_NO_DET") != "1":
-        picks = sorted(results)[:: max(1, len(results) // 8)][:8]
-        det = determinism_sample(
-            mkey, seed, picks, {i: results[i]["digest"] for i in picks}
-        )
-        if det["mismatched"]:
-            print(
-                f"HARNESS-ERROR: nondeterministic runs {det['mismatched']} "
-                f"(digest differs in a fresh interpreter)"
-            )
-            return 2, None, 0
     # ---- violations ------------------------------------------------------
     findings = load_known_findings()
     exit_code = 0
@@ -429,6 +426,19 @@ def check_part(prop, mkey, tier):
         print(f"VIOLATION property={prop} replay={path}")
         reported.append(path)
         exit_code = 1
+    # ---- determinism sample --------------------------------------------
+    det = {"checked": 0, "mismatched": []}
+    if os.environ.get("VERIF_NO_DET") != "1" and exit_code == 0 and not failing:
+        picks = sorted(results)[:: max(1, len(results) // 8)][:8]
+        det = determinism_sample(
+            mkey, seed, picks, {i: results[i]["digest"] for i in picks}
+        )
+        if det["mismatched"]:
+            print(
+                f"HARNESS-ERROR: nondeterministic runs {det['mismatched']} "
+                f"(digest differs in a fresh interpreter)"
+            )
+            return 2, None, 0
     # ---- evidence --------------------------------------------------------
     wall = time.time() - t0
     coverage = {
